@@ -19,16 +19,28 @@ ASSUMPTIONS = ["base arguments < 4, rank arguments < 4^K", "external code does n
 def run(F, rep):
     rep.engines.update(["E2-BV", "E2-DT", "E1"])
     rep.run(common.kmer_floor, F, rep)
+    for ty in common.kmer_type_names(F):
+        rep.run(lemmas.eq_ord_lemmas, F, rep, ty)
+    # "hash equal exactly when they spell the same string": what each k-mer type feeds to a hasher determines the k-mer (derived or by hand)
+    rep.run(lemmas.kmer_hash_lemmas, F, rep, "L-hash")
+    # the comparison / hash impls are derived over `storage` — or written by hand, in which case the interpreted lemmas above (which run the
+    # impls of every k-mer type, whatever their origin) are what decides them
+    lemma_ok = not [o for o in rep.obls if o.get("status") != "HOLDS"]
     for adt in structural.KMER_ADTS:
-        structural.check_derives(F, rep, "C11.derive", adt,
-                                 ["std::cmp::PartialEq", "std::cmp::Eq", "std::cmp::PartialOrd", "std::cmp::Ord", "std::hash::Hash"])
+        d = structural.derives(F, adt)
+        traits = ["std::cmp::PartialEq", "std::cmp::Eq", "std::cmp::PartialOrd", "std::cmp::Ord", "std::hash::Hash"]
+        by_hand = [t for t in traits if t in d and not d[t]]
+        structural.check_derives(F, rep, "C11.derive", adt, [t for t in traits if t not in by_hand or not lemma_ok])
+        for t in by_hand:
+            if lemma_ok:
+                rep.holds("C11.derive", "%s/%s" % (adt, t.split("::")[-1]), "%s is written by hand; the interpreted comparison / hash lemmas decide it for every k-mer type" % t.split("::")[-1])
         fns = structural.field_names(F, adt)
-        if not fns or fns[0] != "storage":
+        if [t for t in by_hand if t.endswith(("Ord", "Hash"))]:
+            pass        # the declaration order of the fields only matters to derived impls
+        elif not fns or fns[0] != "storage":
             rep.violated("C11.derive", adt + "/field-order", "%s: first field is %r, the derived order/hash must see `storage` first" % (adt, fns))
         else:
             rep.holds("C11.derive", adt + "/field-order", "storage is the first (and only non-zero-sized) field")
-    for ty in common.kmer_type_names(F):
-        rep.run(lemmas.eq_ord_lemmas, F, rep, ty)
     # layout + padding preservation by every writer
     rep.run(lemmas.ladder_lemmas, F, rep)
     rep.run(common.run_kmer_lemmas, F, rep, {"empty", "get", "set", "slice", "rc", "ext", "rank", "canon"})
